@@ -438,7 +438,7 @@ def cases(ctx):
     rng = ctx.rng
     cs = corpus()
     shapes = ["task", "phase", "pair", "clean"]
-    for i in range(ctx.scale(140, 1500)):
+    for i in range(ctx.scale(110, 1500)):
         cs.append(gen_case(rng, shapes[i % 4] if i < 40 else None))
     return cs
 
